@@ -65,6 +65,16 @@ def main():
                 special.append((f, fill, ["age %d 0 %d" % (f["idx"], age)], call(f, L), call(f, 0), pause, probes))
                 special.append((f, fill, ["age %d 0 %d" % (f["idx"], age)], call(f, 0), call(f, L), pause, probes))
                 special.append((f, fill, ["age %d 0 %d" % (f["idx"], age)], "invw %d 1" % f["idx"], call(f, 0), pause, probes))
+    # a hit racing a store and a hit racing an invalidation, every pause point of the hit, on every function
+    # (always kept: a lookup that holds a guard the hooks cannot see while it takes an observed lock only
+    # shows as a call that never returns)
+    for f in fns:
+        L = f["limit"] or 3
+        fill = [call(f, x) for x in range(L)]
+        probes = [call(f, L + 2), call(f, 1)]
+        for pause in range(1, 4):
+            special.append((f, fill, [], call(f, 0), call(f, L), pause, probes))
+            special.append((f, fill, [], call(f, 0), "invw %d 0,1" % f["idx"], pause, probes))
     # memory pressure: two concurrent stores of values that each fit max_memory alone but not together
     # (String payloads: size = 24 + length), first into an empty cache, then beside a resident entry
     for f in fns:
